@@ -276,12 +276,12 @@ PageRules(s, e, d) ==
       ok == \A i \in 1..Len(E) : E[i].name \in {".", ".."} \cup Names(s.objs[d])
   IN Fail(Cardinality(ns) # Len(E), "C13:duplicate-name-in-page")
      \o Fail(Cardinality({E[i].cookie : i \in 1..Len(E)}) # Len(E), "C13:duplicate-cookie-in-page")
-     \o Fail(~ok, "C13:entry-not-in-directory")
-     \o Fail(ok /\ \E i \in 1..Len(E) : E[i].id # s.objs[EntObj(s, d, E[i].name)].id, "C13:entry-fileid")
+     \o Fail(~ok, "C02,C13:entry-not-in-directory")
+     \o Fail(ok /\ \E i \in 1..Len(E) : E[i].id # s.objs[EntObj(s, d, E[i].name)].id, "C02,C13:entry-fileid")
      \o Fail(ok /\ \E i \in 1..Len(E) : E[i].plus /\
                 LET x == s.objs[EntObj(s, d, E[i].name)] IN
                   \/ E[i].fh # x.fh \/ E[i].type # x.kind
-                  \/ (SizeOf(x) >= 0 /\ E[i].size # SizeOf(x)), "C13:entry-handle-or-attributes")
+                  \/ (SizeOf(x) >= 0 /\ E[i].size # SizeOf(x)), "C02,C13:entry-handle-or-attributes")
      \o Fail(~e.reof /\ Len(E) = 0, "C13:empty-page-without-eof")
      \o Fail(\E i \in 1..Len(E) : E[i].cookie = 0, "C13:entry-cookie-is-the-start-cookie")
 
@@ -297,7 +297,7 @@ SessRules(s, e, d) ==
   IN IF ~cont THEN <<>>
      ELSE Fail(ns \cap ss.seen # {}, "C13:entry-returned-twice")
           \o Fail(~(ns \subseteq (ss.ever \cup {".", ".."})), "C13:entry-never-in-directory")
-          \o Fail(e.reof /\ ~((ss.through \cap Names(s.objs[d])) \subseteq (ss.seen \cup ns)), "C13:entry-missed")
+          \o Fail(e.reof /\ ~((ss.through \cap Names(s.objs[d])) \subseteq (ss.seen \cup ns)), "C02,C13:entry-missed")
           \o Fail(ss.pages > Cardinality(ss.ever) + 4, "C13:enumeration-does-not-end")
 
 SessNext(s, e, d) ==
@@ -316,7 +316,7 @@ SessNext(s, e, d) ==
 
 FirstPageRules(s, e, d) ==   \* a listing that starts at cookie 0 and reports eof is complete
   LET E == e.ents  ns == {E[i].name : i \in 1..Len(E)} IN
-  Fail(e.cookie = 0 /\ e.reof /\ ~(Names(s.objs[d]) \subseteq ns), "C13:entry-missed")
+  Fail(e.cookie = 0 /\ e.reof /\ ~(Names(s.objs[d]) \subseteq ns), "C02,C13:entry-missed")
 
 ReplyRules(s, e) ==
   LET o == ObjOf(s, e.fh) IN
